@@ -64,4 +64,5 @@ json.dump({"property":prop,"breaks":"see notes.md","needs_to_manifest":"see note
  "confirmed":{"by":"scripts/confirm_seed.sh in a scratch worktree of /repo HEAD","steps":["demo passes on clean tree","patch applies; go build ./... and go vet of touched packages succeed","demo fails with the patch","go test -vet=off -count=1 ./... passes with the patch and the demo absent"]},
  "author":"independent sub-agent given only the property text"}, open(dst+"/meta.json","w"), indent=1)
 PY
+python3 /verif/scripts/fillmeta.py "/$name/"
 echo "RESULT $name: CONFIRMED -> $dst"
